@@ -197,6 +197,15 @@ def generate(repo):
             "     w_reap_raw := " + shuffle_src(find_call(find_function(tree, "Crop.reap_combos"), "combo_runner_core")) + ";",
             "     w_reap_ds := " + shuffle_src(find_call(find_function(tree, "Crop.reap_combos_to_ds"), "combo_runner_to_ds")) + " |}.",
             ""]
+    # ---- the saved description is read from disk every time it is needed (no copy is kept on the object: a
+    #      re-sow replaces the file, and the reap must see the new description)
+    li = find_function(tree, "Crop.load_info")
+    lb = [ast.unparse(x) for x in li.body if not (isinstance(x, ast.Expr) and isinstance(x.value, ast.Constant))]
+    if lb != ["sfile = os.path.join(self.location, INFO_NM)",
+              "if not os.path.isfile(sfile):\n    raise XYZError(\"Settings can't be found at {}.\".format(sfile))\n"
+              "else:\n    return read_from_disk(sfile)"]:
+        raise Refused(li, "Crop.load_info does not simply read the settings file")
+    out += ["Definition gen_info_read_from_disk_each_time : bool := true.", ""]
     # ---- description wiring: the term for combos / cases at the batch planner, the saved settings, the runner
     prepare = find_function(tree, "Crop.prepare")
     pc = find_call(prepare, "self.save_info")
